@@ -2111,6 +2111,10 @@ func op_mvn(cpu *CPU) {
 		cpu.RX++
 	}
 
+	if cpu.M == 1 {
+		// the byte count is the full 16-bit C; with an 8-bit accumulator it lives in RAh:RAl
+		cpu.RA = uint16(cpu.RAh)<<8 | uint16(cpu.RAl)
+	}
 	cpu.RA--
 	cpu.RAl = uint8(cpu.RA & 0x00ff)
 	cpu.RAh = uint8(cpu.RA >> 8)
@@ -2135,6 +2139,10 @@ func op_mvp(cpu *CPU) {
 		cpu.RX--
 	}
 
+	if cpu.M == 1 {
+		// the byte count is the full 16-bit C; with an 8-bit accumulator it lives in RAh:RAl
+		cpu.RA = uint16(cpu.RAh)<<8 | uint16(cpu.RAl)
+	}
 	cpu.RA--
 	cpu.RAl = uint8(cpu.RA & 0x00ff)
 	cpu.RAh = uint8(cpu.RA >> 8)
